@@ -582,17 +582,17 @@ def string_constant(draw: Any, plain_only: bool = False) -> StrConst:
     checked strictly everywhere); the escapes \\t and \\' and raw characters still occur."""
     n = draw(st.sampled_from([0, 1, 1, 2, 3, 4, 6, 9, 14, 24]))
     chars: List[str] = []
-    long_form = draw(st.integers(0, 13)) == 5
+    long_form = draw(st.integers(0, 7)) == 5
     if long_form:
         # a LONG string: plain filler up to a length near a round / power-of-two boundary, a few characters that need an escape
         # somewhere placed right around multiples of such boundaries (buffer sizes, literal-splitting thresholds, line lengths)
-        bound = draw(st.sampled_from([80, 127, 255, 256, 509, 512, 1000, 1024, 2000, 2048, 4000, 4095, 4096]))
+        bound = draw(st.sampled_from([255, 256, 1000, 1024, 2000, 2048, 4095, 4096]))
         total = bound * draw(st.sampled_from([1, 1, 2])) + draw(st.integers(-8, 40))
         off = draw(st.integers(0, 25))
         chars = [chr(97 + (off + i) % 26) if (i + 1) % 9 else " " for i in range(max(total, 1))]
-        specials = list(CONTROL_RAW) + ["\t", "'"] + list(NON_ASCII[:4]) + ([] if plain_only else ['"', "\\", "\n", "\r"])
-        for _ in range(draw(st.integers(1, 5))):
-            pos = bound * draw(st.integers(1, 2)) + draw(st.integers(-7, 3))
+        specials = list(CONTROL_RAW) * 2 + ["\t", "'"] + list(NON_ASCII[:4]) + ([] if plain_only else ['"', "\\", "\n", "\r"])
+        for _ in range(draw(st.integers(2, 6))):
+            pos = bound * draw(st.integers(1, 2)) + draw(st.integers(-5, 1))
             if 0 <= pos < len(chars):
                 chars[pos] = draw(st.sampled_from(specials))
         n = 0
